@@ -1549,8 +1549,17 @@ impl AstNode for ChainSpecificBlock {
 /// let program = parse_string("tx swap() {}").unwrap();
 /// ```
 pub fn parse_string(input: &str) -> Result<Program, Error> {
-    let pairs = Tx3Grammar::parse(Rule::program, input)?;
-    Program::parse(pairs.into_iter().next().unwrap())
+    // the span of an error is an offset into the whole input, so the text it is displayed against
+    // has to be the whole input as well (the conversion from a pest error only knows one line)
+    let with_source = |mut error: Error| {
+        error.src = input.to_string();
+        error
+    };
+
+    let pairs =
+        Tx3Grammar::parse(Rule::program, input).map_err(|e| with_source(Error::from(e)))?;
+
+    Program::parse(pairs.into_iter().next().unwrap()).map_err(with_source)
 }
 
 #[cfg(test)]
